@@ -322,7 +322,17 @@ def _check_visitor_row(ctx, cb, c, kind, p, nodep):
         if not (kw.get("platform") == "platform" and kw.get("state") == "self" and "filename" in kw):
             bad(f"evaluate_for_platform is not given platform=platform, filename=<file>, state=self: {kw}")
             return
-        if "filename" not in kw["filename"]:
+        fn_txt = kw["filename"]
+        if "filename" not in fn_txt and re.fullmatch(r"\w+", fn_txt):
+            # a closure variable of the enclosing associate(): what it was bound to there
+            try:
+                assoc_f = ctx.repo.func("finder", "ParserState.associate")
+                vals = [u(n.value) for n in walk_no_nested(assoc_f.node) if isinstance(n, ast.Assign) and len(n.targets) == 1 and u(n.targets[0]) == fn_txt]
+                if len(vals) == 1:
+                    fn_txt = vals[0]
+            except AnalysisError:
+                pass
+        if "filename" not in fn_txt:
             bad(f"evaluate_for_platform receives filename={kw['filename']} (must be derived from the file being associated)")
             return
     ctx.ok(key, "", loc)
